@@ -44,7 +44,10 @@ def enum_switch(body, adt, facts=None):
         for st in blk["s"]:
             if st[0] == "a" and st[2][0] == "discr" and op_local(t[1]) == st[1][0]:
                 ty = place_type(facts, body, st[2][1]) if st[2][1][1] else body.local_ty(st[2][1][0])
-                if adt in ty:
+                base_ty = ty.replace("&'{erased} ", "&").lstrip("&").strip()
+                if base_ty.startswith("mut "):
+                    base_ty = base_ty[4:]
+                if base_ty == adt or base_ty.startswith(adt + "<"):
                     if best is None or len(t[2]) > len(best[1]):
                         best = (bi, {v: tb for v, tb in t[2]}, t[3])
     return best
